@@ -165,16 +165,31 @@ def _t_cells(tier):
     return rz + bo + ct + eq
 
 
+def _s_cells(tier):
+    """simulated level: a deterministic sample of format pairs (all 4 style combinations, both signednesses,
+    ALL raw values each) and of binop cells."""
+    fmts = all_formats()
+    mod = 32 if tier == "quick" else 4
+    idx = {f: i for i, f in _enum(fmts)}
+    rz = [dict(c, lvl="S") for c in _resize_cells("thorough", "S")
+          if (idx[tuple(c["src"])] * len(fmts) + idx[tuple(c["dst"])]) % mod == 5 % mod]
+    bo = [c for c in _binop_cells("thorough", "S") if _w(c["a"]) + _w(c["b"]) <= 7]
+    bo = _sampled(bo, 26 if tier == "quick" else 3, 3 if tier == "quick" else 1)
+    return rz + bo
+
+
 _GROUPS = {
     "resizeP": lambda tier: _resize_cells(tier, "P"),
     "binopP": lambda tier: _binop_cells(tier, "P"),
     "ctorP": lambda tier: _ctor_cells(tier, "P"),
     "eqP": lambda tier: _eq_cells(tier, "P"),
     "T": _t_cells,
+    "S": _s_cells,
 }
 # number of shards per group (quick, thorough)
 # P cells cost ~5 ms, T cells ~0.4 s (one traced call ~16 ms): quick = 5 P shards + 11 T shards = one wave
-_NSHARDS = {"resizeP": (2, 4), "binopP": (1, 4), "ctorP": (1, 1), "eqP": (1, 1), "T": (11, 38)}
+# quick = 4 P + 9 T + 3 S shards = one wave on 16 workers
+_NSHARDS = {"resizeP": (1, 4), "binopP": (1, 4), "ctorP": (1, 1), "eqP": (1, 1), "T": (9, 34), "S": (3, 20)}
 
 
 def plan(tier):
@@ -358,6 +373,34 @@ def _finish(out, case, cls, n, n_rej, nontrivial_extra=True):
     return out
 
 
+# ----------------------------------------------------------------------------- level S
+def _simulate(src, pokes, res_fmt):
+    """compile the rendered entity, simulate every poke; list of (Fmt, raw) | _Rej per poke, or a status
+    string (rejected:<exc> | blocked:<why> | blocked_by_static:<rule>) when there is no design to simulate."""
+    from cv.gen.c19_probe import Design
+
+    ds = Design(src)
+    if ds.status != "ok":
+        return f"{ds.status}:{ds.why}"
+    out = []
+    for r in ds.run(pokes, ["res"]):
+        if isinstance(r, tuple):
+            out.append(_Rej(f"{r[0]}:{r[1]}"))   # run-time error of the emitted VHDL: reported by the caller
+        elif r["res"] is None:
+            out.append(_Rej("undefined_bits"))
+        else:
+            out.append((res_fmt, rf.wrap(res_fmt, r["res"])))
+    return out
+
+
+def _design_status(out, case, cls, status):
+    st, _, why = status.partition(":")
+    out.identity = _cellname(case)
+    out.status = st
+    out.labels += [f"{cls}:S_{st}", f"S_{st}:{why}", "lvl_S"]
+    return out
+
+
 # ----------------------------------------------------------------------------- resize
 def _check_resize(case):
     C = _cohdl()
@@ -372,12 +415,20 @@ def _check_resize(case):
     def fn_p(i):
         return objs[i].resize(dst.left, dst.right, crs, cos)
 
-    res = _evaluate(lvl, fn_p, len(raws), lambda: _tmod().f_resize(objs, dst.left, dst.right, crs, cos))
     lrel, rrel = _lrel(src, dst), _rrel(src, dst)
+    pres = None
+    if lvl == "S":
+        pres = _evaluate("P", fn_p, len(raws), None)
+        res = _simulate(render_resize_entity(s, case["src"], case["dst"], rs, os_),
+                        [{"raw": r % (1 << src.width)} for r in raws], dst)
+        if isinstance(res, str):
+            return _design_status(out, case, f"{_tname(s)}.resize.{lrel}.{rrel}", res)
+    else:
+        res = _evaluate(lvl, fn_p, len(raws), lambda: _tmod().f_resize(objs, dst.left, dst.right, crs, cos))
     base = {"what": "resize", "type": _tname(s), "lvl": lvl, "round": rs, "overflow": os_, "left": lrel,
             "right": rrel}
     n_rej = 0
-    for raw, r in zip(raws, res):
+    for i, (raw, r) in _enum(zip(raws, res)):
         if isinstance(r, _Rej):
             n_rej += 1
             out.counters[f"rej_{r.exc}"] = out.counters.get(f"rej_{r.exc}", 0) + 1
@@ -387,7 +438,13 @@ def _check_resize(case):
         trait = "carry" if tr["round_carry"] else "overflow" if tr["out_of_range"] else "inrange"
         neg = bool(tr["negative"])
         try:
-            f, got = _read(C, r)
+            f, got = r if lvl == "S" else _read(C, r)
+            if lvl == "S" and not isinstance(pres[i], _Rej):
+                pf, pgot = _read(C, pres[i])
+                if (pf, pgot) != (f, got):
+                    out.add(dict(base, div="level_disagree", levels="P-S", trait=trait, neg=neg),
+                            f"{_cellname(case)} raw={raw}: Python level gives {pf} raw {pgot}, simulated VHDL raw {got} "
+                            f"(reference raw {exp})")
         except _Unreadable as u:
             out.add(dict(base, div="result_object", why=str(u).split(":")[0]),
                     f"{_cellname(case)} raw={raw}: result object unreadable ({u})")
@@ -431,7 +488,15 @@ def _check_binop(case):
         return pyop(oa[i // nb], ob[i % nb])
 
     n = len(ra) * nb
-    res = _evaluate(lvl, fn_p, n, lambda: _tmod().f_binop(op, oa, ob, nb))
+    if lvl == "S":
+        rl, rr = binop_result_format(op, case["a"], case["b"])
+        res = _simulate(render_binop_entity(s, op, case["a"], case["b"]),
+                        [{"raw_a": ra[i // nb] % (1 << a.width), "raw_b": rb[i % nb] % (1 << b.width)} for i in range(n)],
+                        Fmt(s, rl, rr))
+        if isinstance(res, str):
+            return _design_status(out, case, f"{_tname(s)}.{op}", res)
+    else:
+        res = _evaluate(lvl, fn_p, n, lambda: _tmod().f_binop(op, oa, ob, nb))
     base = {"what": op, "type": _tname(s), "lvl": lvl, "lefts": _rel(a.left, b.left),
             "rights": _rel(a.right, b.right)}
     n_rej = 0
@@ -443,7 +508,7 @@ def _check_binop(case):
             continue
         exact = rf.exact_binop(op, a, x, b, y)
         try:
-            f, got = _read(C, r)
+            f, got = r if lvl == "S" else _read(C, r)
         except _Unreadable as u:
             out.add(dict(base, div="result_object", why=str(u).split(":")[0]),
                     f"{_cellname(case)} raws=({x},{y}): result object unreadable ({u})")
